@@ -13,6 +13,7 @@ VERIF = os.path.dirname(os.path.dirname(os.path.abspath(__file__)))
 REPO = os.environ.get('VERIF_REPO', '/repo')
 DRIVER = os.path.join(VERIF, 'driver', 'target', 'debug', 'ppfacts')
 CACHE = os.path.join(VERIF, '.cache')
+EVDIR = os.environ.get('VERIF_EVIDENCE_DIR') or os.path.join(VERIF, 'evidence')
 
 
 class Infra(Exception):
@@ -191,7 +192,7 @@ def finish(rep, tier, level, t0, explanation, trusted_base, assumptions, samples
             print('KNOWN-FINDING: property=%s %s' % (prop, known[k]['what']))
         else:
             unlisted.append(o)
-    os.makedirs(os.path.join(VERIF, 'evidence', 'replay'), exist_ok=True)
+    os.makedirs(os.path.join(EVDIR, 'replay'), exist_ok=True)
     n_obl = len(rep.obligations)
     n_ok = sum(1 for o in rep.obligations if o['status'] == 'holds')
     if samples is None:
@@ -229,14 +230,14 @@ def finish(rep, tier, level, t0, explanation, trusted_base, assumptions, samples
         'wall_s': round(time.time() - t0, 2),
         'violations': len(unlisted),
     }
-    with open(os.path.join(VERIF, 'evidence', '%s.json' % prop), 'w') as f:
+    with open(os.path.join(EVDIR, '%s.json' % prop), 'w') as f:
         json.dump(ev, f, indent=1, default=str)
     print('%s: %d obligations, %d hold, %d violated (%d known), %d functions, %d call sites, %.1fs' % (
         prop, n_obl, n_ok, len(viol), len(viol) - len(unlisted), len(rep.analysed['functions']),
         rep.analysed['call_sites'], time.time() - t0))
     if unlisted:
         for i, o in enumerate(unlisted):
-            rp = os.path.join(VERIF, 'evidence', 'replay', '%s-%d.json' % (prop, i))
+            rp = os.path.join(EVDIR, 'replay', '%s-%d.json' % (prop, i))
             with open(rp, 'w') as f:
                 json.dump({'property': prop, 'key': vkey(prop, o), **o}, f, indent=1, default=str)
             print('  rule %s instance %s at %s: %s' % (o['rule'], o['instance'], o.get('where'), o['detail']))
